@@ -6,9 +6,11 @@ import apigen, genrun, libhost, rpc
 PKG = "acme.lib.v1"
 CORPUS = os.path.join(os.path.dirname(os.path.dirname(os.path.dirname(os.path.abspath(__file__)))), "corpus", "C07")
 INT_KINDS = ["int32", "int64", "uint32", "uint64", "sint32", "sint64", "fixed32", "fixed64", "sfixed32", "sfixed64"]
-REP_KINDS = ["message", "message", "string", "map", "enum", "other_file", "int", "bytes", "double", "nested", "map_scalar", "map_intkey", "map_other_file", "map_enum"]
+REP_KINDS = ["message", "message", "string", "map", "enum", "other_file", "int", "bytes", "double", "nested", "map_scalar", "map_intkey", "map_other_file", "map_enum", "dep_item", "map_dep"]
 FILE_FREE_KINDS = ("string", "int", "other_file", "bytes", "double", "map_scalar")      # need nothing of lib.proto
-MAP_KINDS = ("map", "map_scalar", "map_intkey", "map_other_file", "map_enum")
+MAP_KINDS = ("map", "map_scalar", "map_intkey", "map_other_file", "map_enum", "map_dep")
+DEP_PKG = "acme.shared.v1"      # a DEPENDENCY package: in proto_file, not in file_to_generate; its messages are plain protobuf (pb2) classes
+DEP_FREE_KINDS = ("string", "int", "bytes", "double", "map_scalar", "nested", "dep_item", "map_dep")      # need nothing of the API package
 
 
 def gen_shape(r: apigen.Rng, idx: int, conforming=None, force=None, first_kind=None):
@@ -33,6 +35,13 @@ def gen_shape(r: apigen.Rng, idx: int, conforming=None, force=None, first_kind=N
     s["renumber"] = r.maybe(0.25)
     s["resp_other_file"] = r.maybe(0.2) and all(k in FILE_FREE_KINDS for k in s["repeated"])
     s["sig"] = bool(s["extra_req"]) and r.maybe(0.4)
+    # request and/or response declared in a dependency package (plain protobuf classes, no proto-plus wrapper)
+    s["req_pkg"] = "dep" if r.maybe(0.12) else None
+    s["resp_pkg"] = "dep" if (r.maybe(0.12) and all(k in DEP_FREE_KINDS for k in s["repeated"])) else None
+    if s["resp_pkg"]:
+        s["resp_other_file"] = False
+    if s["req_pkg"]:
+        s["sig"] = False          # flattened arguments of a request of another package: C05's subject (open findings there)
     if force:
         ok = False
     if not ok:
@@ -115,19 +124,26 @@ def build_api(shapes):
         tpkg, tdir = PKG, "acme/lib/v1"
     f2 = apigen.File(f"{tdir}/shared.proto", tpkg, deps=[])
     other = f2.msg("SharedItem"); other.field("id"); other.field("rank", "int32")
+    fd = thing = None
+    if any(s.get("req_pkg") or s.get("resp_pkg") or any(k in ("dep_item", "map_dep") for k in s["repeated"]) for s in shapes):
+        fd = apigen.File("acme/shared/v1/things.proto", DEP_PKG)
+        thing = fd.msg("Thing"); thing.field("name"); thing.field("pages", "int32")
     if layout == "msgs_sub":
         ft = apigen.File("acme/lib/v1/keepers/types.proto", SUB).dep(f2.name)            # messages
         f = apigen.File("acme/lib/v1/lib.proto", PKG).dep(f2.name, ft.name)               # the service
         files = [f2, ft, f]
+        if fd: ft.dep(fd.name); f.dep(fd.name)
     else:
         f = ft = apigen.File("acme/lib/v1/lib.proto", PKG).dep(f2.name)
         files = [f2, f]
+        if fd: f.dep(fd.name)
     color = ft.enum("Color", ["COLOR_UNSPECIFIED", "RED", "BLUE"])
     book = ft.msg("Book"); book.field("name"); book.field("pages", "int32")
     fk = None
     if layout in ("svc_sub", "two_svc"):
         fk = apigen.File("acme/lib/v1/keepers/service.proto", SUB).dep(f2.name, f.name)
         files.append(fk)
+        if fd: fk.dep(fd.name)
     svcs = {}
 
     def service_of(s):
@@ -139,7 +155,8 @@ def build_api(shapes):
         opt = s.get("opt", [])
         fm = fk if (layout == "two_svc" and s.get("svc") == "Keeper") else ft      # where this method's request/response live
         svc = service_of(s)
-        rq = fm.msg(s["name"] + "Request")
+        size_enum = any(x and x[1] == "enum" for x in (s["size"], s["size2"]))          # Color lives in the API package
+        rq = (fd if (s.get("req_pkg") and not size_enum) else fm).msg(s["name"] + "Request")
         if s["extra_req"]:
             rq.field("parent"); rq.field("filter")
         if s.get("oneof_token"):
@@ -150,7 +167,7 @@ def build_api(shapes):
         elif s["page_token"]: rq.field("page_token", s["page_token"])
         for x in (s["size"], s["size2"]):
             if x: add_size(rq, x, color, "size" in opt)
-        rs = (f2 if s.get("resp_other_file") else fm).msg(s["name"] + "Response")
+        rs = (fd if s.get("resp_pkg") else f2 if s.get("resp_other_file") else fm).msg(s["name"] + "Response")
         decl = []      # (declare) thunks in declaration order; numbers descending when `renumber`
         if s["lead"]:
             decl.append(lambda n, rs=rs: rs.field("total", "int32", number=n))
@@ -172,6 +189,8 @@ def build_api(shapes):
             elif kind == "map_scalar": decl.append(lambda n, fn=fn, rs=rs: rs.map_field(fn, "string", "int32", number=n))
             elif kind == "map_intkey": decl.append(lambda n, fn=fn, rs=rs: rs.map_field(fn, "int32", "message", number=n, vtype_name=book))
             elif kind == "map_enum": decl.append(lambda n, fn=fn, rs=rs: rs.map_field(fn, "string", "enum", number=n, vtype_name=color))
+            elif kind == "dep_item": decl.append(lambda n, fn=fn, rs=rs: rs.field(fn, "message", number=n, repeated=True, type_name=thing))
+            elif kind == "map_dep": decl.append(lambda n, fn=fn, rs=rs: rs.map_field(fn, "string", "message", number=n, vtype_name=thing))
             elif kind == "map_other_file": decl.append(lambda n, fn=fn, rs=rs: rs.map_field(fn, "string", "message", number=n, vtype_name=other))
         if s["next_page_token"] == "str": decl.append(lambda n, rs=rs: rs.field("next_page_token", number=n, optional="next" in opt))
         elif s["next_page_token"] == "repeated_str": decl.append(lambda n, rs=rs: rs.field("next_page_token", number=n, repeated=True))
@@ -181,7 +200,19 @@ def build_api(shapes):
         st = s.get("stream")
         svc.method(s["name"], rq, rs, http=None if st else ("get", "/v1/lists/" + s["name"].lower()),     # every request field travels in the query over REST
                    sigs=["parent,filter"] if s.get("sig") else (), ss=st in ("ss", "bidi"), cs=st in ("cs", "bidi"))
-    return files
+    return ([fd] if fd else []) + files
+
+
+def targets_of(files):
+    return [f for f in files if f.pb.package != DEP_PKG]
+
+
+def materialise_all(res, files):
+    root = genrun.materialise(res)
+    for f in files:
+        if f.pb.package == DEP_PKG:
+            genrun.materialise_pb2(root, f.pb)        # the dependency's own module (what protoc's python plugin gives)
+    return root
 
 
 def with_layout(r, shapes, layout):
@@ -256,7 +287,7 @@ RESUME_ECHO_HISTORY = [{"ids": [1], "token": "cur-2"}, {"ids": [2], "token": "cu
 
 
 def item_json(kind, i):
-    if kind in ("message", "nested"): return {"name": f"b{i}", "pages": i}
+    if kind in ("message", "nested", "dep_item"): return {"name": f"b{i}", "pages": i}
     if kind == "other_file": return {"id": f"s{i}", "rank": i}
     if kind == "string": return f"v{i}"
     if kind == "int": return str(i)
@@ -268,7 +299,7 @@ def item_json(kind, i):
 
 def page_json(s, page, field0, kind):
     d = {}
-    if kind in ("map", "map_intkey"):
+    if kind in ("map", "map_intkey", "map_dep"):
         d[field0] = {(f"k{i}" if kind == "map" else str(i)): {"name": f"b{i}", "pages": i} for i in page["ids"]}
     elif kind == "map_scalar":
         d[field0] = {f"k{i}": i for i in page["ids"]}
@@ -302,7 +333,7 @@ def _item_id(kind, canon, codec):
         if v.get("kind") == "scalar":
             return int(v["value"])
         return int(codec.decode(v["type"], v["b64"]).get("rank" if kind == "map_other_file" else "pages", 0))
-    if kind in ("message",):
+    if kind in ("message", "dep_item"):
         return int(codec.decode(canon["type"], canon["b64"]).get("pages", 0))
     if kind == "nested":
         return int(codec.decode(canon["type"], canon["b64"]).get("pages", 0))
@@ -382,7 +413,7 @@ def out_kind(m, asy):
 
 def run_api(ctx, r, shapes, label, programs=None):
     files = build_api(shapes)
-    req = apigen.request(files, "transport=grpc+rest,autogen-snippets=false")
+    req = apigen.request(files, "transport=grpc+rest,autogen-snippets=false", targets=targets_of(files))
     api, _ = genrun.build_api(req)
     codec = rpc.Codec(files)
     layout = shapes[0].get("layout") if shapes else None
@@ -403,7 +434,7 @@ def run_api(ctx, r, shapes, label, programs=None):
         ctx.fail(key, f"generator raised {err[0]}: {err[1]}",
                  {"shapes": enum_paged[:1] or shapes, "shape": (enum_paged[:1] or shapes)[0]})
         return
-    root = genrun.materialise(res)
+    root = materialise_all(res, files)
     try:
         for (full, sub), (model, wmodel, paged, unary) in zip(groups, classified):
             t3_service(ctx, r, api, codec, root, api.services[full], full, sub, model, wmodel, paged, unary, programs, shapes)
@@ -426,7 +457,7 @@ def classify_service(ctx, svc, shapes):
         impl = m.paged_result_field.name if m.paged_result_field else None
         ctx.case({"shape": {k: v for k, v in s.items() if k != "name"}, "paged": impl}, distinct_key=["shape", json.dumps(s, sort_keys=True)])
         ctx.count("classification", f"{'paged' if impl else 'plain'}:{s.get('mutation', 'conforming')}")
-        for fl in ("opt", "oneof_token", "renumber", "resp_other_file", "sig", "stream"):
+        for fl in ("opt", "oneof_token", "renumber", "resp_other_file", "sig", "stream", "req_pkg", "resp_pkg"):
             if s.get(fl):
                 ctx.count("shape_variation", fl)
         ctx.traces += 1
@@ -450,6 +481,14 @@ def classify_service(ctx, svc, shapes):
             if impl and want is not False:
                 paged.append(s)
     return model, wmodel, paged, unary
+
+
+def raise_key(s, res_, default):
+    """finding pager-construct:request-of-another-package: keyed by the INPUT shape (paginated method x request message of another
+    proto package, i.e. a plain protobuf class) and the symptom (TypeError when the pager copies the request)"""
+    if s.get("req_pkg") == "dep" and res_.get("raised") == "TypeError" and "positional" in str(res_.get("msg")):
+        return "pager-construct:request-of-another-package"
+    return default
 
 
 def session_failed(ctx, label, sess, shapes):
@@ -577,7 +616,7 @@ def t3_service(ctx, r, api, codec, root, svc, svc_full, shapes, model, wmodel, p
                     ctx.fail("call-options-changed", f"{m.name}: the caller's retry= did not reach the fetch of page {fail_at + 1}: "
                              f"{res_.get('raised')}: {res_.get('msg')}", payload)
                 else:
-                    ctx.fail("pager-raised", f"{m.name}: {res_.get('raised')}: {res_.get('msg')}", payload)
+                    ctx.fail(raise_key(s, res_, "pager-raised"), f"{m.name}: {res_.get('raised')}: {res_.get('msg')}", payload)
                 continue
             ok = res_["ok"]
             # expected by the statement
@@ -661,7 +700,7 @@ def t3_service(ctx, r, api, codec, root, svc, svc_full, shapes, model, wmodel, p
                 payload = {"shape": s, "history": hist, "request": reqd, "async": False, "transport": "rest", "mode": call["mode"]}
                 ctx.count("transport", "rest")
                 if "ok" not in res_:
-                    ctx.fail("pager-raised", f"{m.name} (rest): {res_.get('raised')}: {res_.get('msg')}", payload)
+                    ctx.fail(raise_key(s, res_, "pager-raised"), f"{m.name} (rest): {res_.get('raised')}: {res_.get('msg')}", payload)
                     continue
                 live = live_pages(hist)
                 exp = (lambda i: 1 + i % 2) if kind == "map_enum" else (lambda i: i)      # map_enum: the values are enum numbers (RED = 1, BLUE = 2)
@@ -738,7 +777,7 @@ def check_objects(ctx, codec, svc, obj_calls, stream_calls, obj_out, shapes):
                 payload = {"shape": s, "async": asy, "exposure": True}
                 ctx.traces += 1
                 if "raised" in res_:
-                    ctx.fail("method-raised", f"{m.name}: calling the method raised {res_['raised']}: {res_.get('msg')}", payload)
+                    ctx.fail(raise_key(s, res_, "method-raised"), f"{m.name}: calling the method raised {res_['raised']}: {res_.get('msg')}", payload)
                     continue
                 is_pager = bool(res_.get("is_pager")) and res_.get("pytype") == m.name + ("AsyncPager" if asy else "Pager")
                 ctx.count("exposure", ("pager" if is_pager else "plain:" + str(res_.get("pytype") == m.output.name)))
@@ -757,7 +796,7 @@ def check_objects(ctx, codec, svc, obj_calls, stream_calls, obj_out, shapes):
             ctx.count("program", "generator program on one pager (%s)" % ("asyncio" if asy else "sync"))
             ctx.count("program_ops", len(prog))
             if "raised" in res_:
-                ctx.fail("pager-raised", f"{m.name}: {res_['raised']}: {res_.get('msg')}", payload)
+                ctx.fail(raise_key(s, res_, "pager-raised"), f"{m.name}: {res_['raised']}: {res_.get('msg')}", payload)
                 continue
             steps = res_["steps"]
             bad = [st for st in steps if isinstance(st["obs"], dict) and "raised" in st["obs"]]
@@ -955,7 +994,7 @@ def stream_shape(r, idx, kind=None):
 def run(ctx):
     ctx.rule = ("request/response shapes around the AIP-4233 rule (present/absent/mistyped/repeated/optional/oneof token and size fields, "
                 "all integer kinds, 1..3 repeated fields of message/nested/scalar/bytes/map/enum/other-file kinds, declaration order != "
-                "number order, response in another file; proto sub-package layouts: services in a sub-package with messages in the API package, "
+                "number order, response in another file; request / response / items / map values declared in a DEPENDENCY package (plain protobuf classes); proto sub-package layouts: services in a sub-package with messages in the API package, "
                 "one service in each, messages/items in a sub-package with items from a third file) x scripted histories (1..5 pages, sizes 0..3, extra pages after the empty token; token values from a small pool with repetition: equal consecutive tokens, a token equal to the caller's page_token, tokens coming back) "
                 "x {sync, asyncio, REST} x call modes (instance, dict, flattened, none) x programs (second listing with the same objects; "
                 "generator programs on one pager: several `pages`/item generators advanced in any interleaving, attribute reads, "
@@ -974,6 +1013,8 @@ def run(ctx):
     exhaustive_programs(ctx, ctx.n(4, 7))
     with open(os.path.join(CORPUS, "map_value_other_file.json")) as fh:      # regression input (fixed 1f977de): map pager whose value type lives in another module; must HOLD
         run_api(ctx, r, json.load(fh)["payload"]["shapes"], "corpus:map-value-other-file")
+    with open(os.path.join(CORPUS, "request_other_package.json")) as fh:     # requests / responses / items of a dependency package (pb2 classes)
+        run_api(ctx, r, json.load(fh)["payload"]["shapes"], "corpus:request-other-package")
     # proto sub-package layouts: one deterministic API per layout (corpus/C07/subpkg_<layout>.json), then a regular share below
     for lay in LAYOUTS:
         with open(os.path.join(CORPUS, f"subpkg_{lay}.json")) as fh:
